@@ -761,7 +761,7 @@ def inline_new_aliases(repo, ref):
                 if len(blk) > 1 and any(tw is x for x in blk):
                     blk.remove(tw)
                     _invalidate(fi.node)
-            if any(isinstance(x, ast.IfExp) for x in ast.walk(st.value)):
+            if any(isinstance(x, ast.IfExp) or (isinstance(x, ast.Call) and isinstance(x.func, ast.Name) and x.func.id == "bool") for x in ast.walk(st.value)):
                 _simplify_bool_contexts(fi.node)
     return inlined
 
@@ -788,9 +788,13 @@ def _pure_chain_expr(e):
             return rec(x.operand)
         if isinstance(x, ast.IfExp):
             return rec(x.test) and rec(x.body) and rec(x.orelse)
+        if isinstance(x, ast.Call) and isinstance(x.func, ast.Name) and x.func.id == "bool" and len(x.args) == 1 and not x.keywords:
+            return rec(x.args[0])           # bool(<truth value>): no effect
         return False
     def boolean(x):
         # a truth value: comparison, and / or / not over such, a conditional expression of such or of constants
+        if isinstance(x, ast.Call) and isinstance(x.func, ast.Name) and x.func.id == "bool" and len(x.args) == 1 and not x.keywords:
+            return True
         if isinstance(x, ast.Compare):
             return True
         if isinstance(x, ast.BoolOp):
